@@ -26,6 +26,10 @@ def strip_comments_and_tests(src):
             j = n if j < 0 else j + 2
             out.append("\n" * src.count("\n", i, j))
             i = j
+        elif src[i] == "'" and re.match(r"'(\\.|[^\\'])'", src[i:i + 4]):
+            m = re.match(r"'(\\.|[^\\'])'", src[i:i + 4])      # a char literal such as '"' or '\\n'
+            out.append("' '")
+            i += m.end()
         elif src[i] == '"':
             j = i + 1
             while j < n and src[j] != '"':
